@@ -505,9 +505,23 @@ func c17GenURLExpr(t *rapid.T) c17URLExpr {
 	replace := rapid.Bool().Draw(t, "replace")
 	var pat string
 	canon := rapid.IntRange(0, 2).Draw(t, "canon") > 0
-	if !canon && verifkit.Excluded(c17fURLPattern) {
-		verifkit.CountExcluded(c17fURLPattern)
-		canon = true
+	if !canon {
+		// Non-canonical pattern. While C17-url-pattern-unchecked is open only the
+		// patterns that TRIGGER today's rewrite are excluded; patterns the rewriter
+		// declines today (e.g. a host class that excludes more than '/') stay in, so
+		// a rewriter that starts firing on them is still compared with DuckDB.
+		cand := rapid.SampledFrom([]string{"^", "^", ""}).Draw(t, "p0") +
+			rapid.SampledFrom([]string{"https?://", "https://", "(?:https?|ftp)://", "(https?)://", "(?:https?://)?", "https?:/+"}).Draw(t, "p1") +
+			rapid.SampledFrom([]string{`(?:www\.)?`, `(?:www\.)?`, "", `(?:www\.|m\.)?`}).Draw(t, "p2") +
+			rapid.SampledFrom([]string{"([^/]+)", "([^/]+)", "([^/]*)", "[^/]+(/[^/]*)", "([^/:]+)", "([^/:]+)", "([^/?#]+)", "([^/:?#]+)", `([^\/:]+)`, `([^/]+\.[a-z]+)`}).Draw(t, "p3") +
+			rapid.SampledFrom([]string{"/.*$", ".*$", "", "/.*", "(?:/.*)?$", "$"}).Draw(t, "p4")
+		fires := strings.Contains(strings.ToLower(cand), "https") && (strings.Contains(cand, "[^/]") || strings.Contains(cand, `[^\/]`))
+		if fires && verifkit.Excluded(c17fURLPattern) {
+			verifkit.CountExcluded(c17fURLPattern)
+			canon = true
+		} else {
+			pat = cand
+		}
 	}
 	if canon {
 		if replace {
@@ -518,12 +532,6 @@ func c17GenURLExpr(t *rapid.T) c17URLExpr {
 		if rapid.IntRange(0, 5).Draw(t, "escslash") == 0 {
 			pat = strings.ReplaceAll(pat, "[^/]", `[^\/]`)
 		}
-	} else {
-		pat = rapid.SampledFrom([]string{"^", "^", ""}).Draw(t, "p0") +
-			rapid.SampledFrom([]string{"https?://", "https://", "(?:https?|ftp)://", "(https?)://", "(?:https?://)?", "https?:/+"}).Draw(t, "p1") +
-			rapid.SampledFrom([]string{`(?:www\.)?`, `(?:www\.)?`, "", `(?:www\.|m\.)?`}).Draw(t, "p2") +
-			rapid.SampledFrom([]string{"([^/]+)", "([^/]+)", "([^/]*)", "[^/]+(/[^/]*)", "([^/:]+)", `([^/]+\.[a-z]+)`}).Draw(t, "p3") +
-			rapid.SampledFrom([]string{"/.*$", ".*$", "", "/.*", "(?:/.*)?$", "$"}).Draw(t, "p4")
 	}
 	fn := "REGEXP_EXTRACT"
 	if replace {
@@ -724,7 +732,7 @@ func c17GenBool(t *rapid.T, depth int) (text string, topOr bool, last c17Item, l
 }
 
 // c17GenWhere returns a WHERE body; with forceTail the clause ends in
-// `AND col <> ''`, the shape OptimizeLikePatterns hoists.
+// `AND col <> ”`, the shape OptimizeLikePatterns hoists.
 func c17GenWhere(t *rapid.T) string {
 	body, topOr, last, lastAnd := c17GenBool(t, 2)
 	if rapid.IntRange(0, 2).Draw(t, "forcetail") > 0 {
@@ -849,7 +857,7 @@ func TestVerifC17_Combined(t *testing.T) {
 
 // ------------------------------------------------------------------ known-finding reproductions
 
-func i64p(v int64) *int64 { return &v }
+func i64p(v int64) *int64   { return &v }
 func strp(s string) *string { return &s }
 
 // c17Repro loads rows, rewrites orig with the real functions and reports whether
